@@ -13,16 +13,16 @@ import (
 )
 
 var kvfuncs = map[string]func(int, int) bool{
-	"kv_true":   func(k, v int) bool { return true },
-	"kv_false":  func(k, v int) bool { return false },
-	"kv_keven":  func(k, v int) bool { return k%2 == 0 },
-	"kv_vpos":   func(k, v int) bool { return v > 0 },
-	"kv_klt_v":  func(k, v int) bool { return k < v },
-	"eq_std":    func(a, b int) bool { return a == b },
-	"eq_mod2":   func(a, b int) bool { return a%2 == b%2 },
-	"eq_le":     func(a, b int) bool { return a <= b },
-	"eq_true":   func(a, b int) bool { return true },
-	"eq_false":  func(a, b int) bool { return false },
+	"kv_true":  func(k, v int) bool { return true },
+	"kv_false": func(k, v int) bool { return false },
+	"kv_keven": func(k, v int) bool { return k%2 == 0 },
+	"kv_vpos":  func(k, v int) bool { return v > 0 },
+	"kv_klt_v": func(k, v int) bool { return k < v },
+	"eq_std":   func(a, b int) bool { return a == b },
+	"eq_mod2":  func(a, b int) bool { return a%2 == b%2 },
+	"eq_le":    func(a, b int) bool { return a <= b },
+	"eq_true":  func(a, b int) bool { return true },
+	"eq_false": func(a, b int) bool { return false },
 }
 
 var bmWrapperNames = []string{"UnsafeAny", "SafeAny", "UnsafeComparable", "SafeComparable"}
